@@ -97,6 +97,10 @@ fn main() {
     if prop == "c09" {
         strict_err = Some(c09::generate(&mut s, thorough));
     }
+    #[cfg(feature = "c09b")]
+    if prop == "c09b" {
+        strict_err = Some(c09b::generate(&mut s, thorough));
+    }
     #[cfg(feature = "c10")]
     if prop == "c10" {
         strict_err = Some(c10::generate(&mut s, thorough));
